@@ -10,7 +10,22 @@ def check(k, seed):
     prms = prms_variant(k, seed)
     if k % 5 == 4:
         prms.setdefault('SLICING_PRMS', {})['dt_scale'] = 1 if k % 10 == 4 else 1000
+        if k % 10 == 4 and len(df) > 200:
+            # (dt_scale = 1 makes one slice per time step: minutes of run time on the big scenes; any prefix is a legal input too)
+            df = df.iloc[:200].copy()
+            desc = dict(desc, rows=len(df), truncated=True)
     fails = []
+    if k % 3 == 1:
+        # frames as users assemble them: repeated index labels (pd.concat of per-ceilometer frames), with an MSA that crops some
+        # hits -- every scene has hits above and below its median height
+        df = df.copy()
+        df.index = [i % max(2, len(df) // 3) for i in range(len(df))]
+        hs = df['height'].dropna()
+        if len(hs):
+            prms = dict(prms)
+            prms['MSA'] = float(hs.median())
+            prms.setdefault('MSA_HIT_BUFFER', 0)
+        desc = dict(desc, labels='repeated', msa=prms.get('MSA'))
     try:
         chunk = run_quiet(df, prms)
     except Exception as e:
